@@ -12,8 +12,8 @@ CHECKS = {
          "Every point of the half-integer grid is classified against unfiltered grid polygons (self-intersecting, degenerate, unclosed, clockwise, multi-ring, multi-member, boxes) and compared with an exact oracle; float polygons (including edges whose end ordinates differ by one ulp from the query ordinate) are judged at margin points in exact rational arithmetic; MultiPoint/LineString/MultiLineString/Polygon receivers are checked against 'Outside iff some vertex is Outside'. Thorough additionally enumerates all triangles and quadrilaterals on the 4x4 grid against all 49 half-grid points.",
          "Exactness of the oracle rests on math/big and a Shewchuk-style float filter; a ring counts when it stores >= 3 vertices.", "§4 C02"),
  "C03": ("runtime monitor: exact rational (math/big) area/centroid/length/distance references over the spelling orbit of generated valid shapes",
-         "Valid lattice polygons and multi-polygons are explored over their reversal x rotation x closure orbit (complete for <= 3 rings) and a float similarity image; Area must equal the exact rational area (== on the grid), centroids the exact area-weighted centroid, Length/Distance 200-bit references, Buffer the regular n-gon; op.Area/op.Centroid/op.Length under their documented preconditions.",
-         "Centroid of Polygon/op only under the property's preconditions (closed, alternating winding); float images keep translation <= 10x size.", "§4 C03"),
+         "Valid lattice polygons and multi-polygons are explored over their reversal x rotation x closure orbit (complete for <= 3 rings) and a float similarity image; Area must equal the exact rational area (== on the grid), centroids the exact area-weighted centroid, Length/Distance 200-bit references, Buffer the regular n-gon; op.Area/op.Centroid/op.Length under their documented preconditions. A phase extreme_magnitude multiplies the lattice figures by 2^k (k in -1000..-300 and 300..1010, exact) and judges the three Centroid functions against the exact centroid scaled by 2^k.",
+         "Centroid of Polygon/op only under the property's preconditions (closed, alternating winding); float images keep translation <= 10x size (up to 1e6 x size with a conditioning slack). Areas are not asked for beyond 1e150 in size, where the area itself leaves the float64 range.", "§4 C03"),
  "C04": ("runtime monitor: harness flattening / min-max fold / lattice-law oracle over generated geometries and box triples",
          "Every generated geometry (8 types, empty members, nested collections, special float values) is run through Points/Len/Bounds under recover() and compared with an independent flattening and min/max fold; box pairs/triples are judged against the join/overlap/intersection model. Held on the executions produced, not a proof.",
          "Trusts the harness's own flattening (30 lines) and IEEE min/max; NaN coordinates and non-canonical empty boxes are outside the quantifier.", "§4 C04"),
@@ -55,12 +55,12 @@ CHECKS = {
          "Needs hook H2 (schedule points, build tag verif). Schedules are sampled/forced, not exhausted; the evidence reports distinct hook traces and how many runs actually contained the window.", "§4 C18"),
  "C19": ("runtime monitor: harness graph model + Dijkstra as oracle over generated link networks",
          "Networks of 2-300 nodes (trees, grids with diagonals, two components, cheap-detour and fast-ring configurations; bendy links, speeds over two decades, random insertion order/orientation) are queried for Distance and Time; start/end nodes must be the true nearest nodes, returned links must chain from start to end node, totals must equal the sums over the returned links, the chosen cost must equal the harness Dijkstra optimum (1e-9), disconnected pairs give an empty route.",
-         "No self loops or parallel links; queries with an ambiguous nearest node are skipped; returned links are identified by slice identity.", "§4 C19"),
+         "No self loops or parallel links; queries with an ambiguous nearest node are skipped; returned links are identified by slice identity. A phase unrepresentable_cost (connected nodes whose every chain costs +Inf in float64: a positive subnormal speed, two links of 1e308) exhibits a recorded limitation (known_findings.json, one key), prints KNOWN-FINDING and does not fail the run.", "§4 C19"),
  "C20": ("runtime monitor: pairwise transformer agreement between harness-printed PROJ.4 and WKT spellings of one system; registry/Equal/nil-transformer laws; .prj read-back",
          "Generated systems (5 WKT projection names + geographic; spheroid by a,1/f; TOWGS84 3/7/none; metre/foot/US foot; ESRI and OGC parameter names) are printed both ways by the harness and must transform identically (1e-6 m forward, 1e-11 deg inverse, also in mixed pairs); registered names must behave as their published definitions; same text parsed twice is Equal; NewTransform is nil exactly when Equal(…,3) for identical / 1-ulp / 1e-9 / name / units / datum-parameter-count variants, without panicking; (*shp.Decoder).SR() equals proj.Parse of the .prj text.",
          "Definitions without TOWGS84 are compared from the same-spheroid geographic system spelled both ways (WKT DATUM without TOWGS84 and +a +rf without +datum are different datum statements).", "§4 C20"),
  "C16": ("runtime monitor: record-list reference model; bitwise geometry comparison; attribute rules; reflect-built archetype structs for column-order coverage",
-         "Files of 0-300 records of every supported geometry kind with 1-6 attribute columns in random order are written through both encoder APIs (archetype structs built with reflect.StructOf, shp tags and bare mixed-case names; field lists) and read back through DecodeRow (differently cased names/tags) and DecodeRowFields; count, order, documented geometry images with bitwise coordinates, ints, floats to 10 decimals and strings must equal the records written, Error() must be nil.",
+         "Files of 0-300 records of every supported geometry kind with 1-6 attribute columns in random order are written through both encoder APIs (archetype structs built with reflect.StructOf, shp tags and bare mixed-case names; field lists) and read back through DecodeRow (differently cased names/tags; geometry field of the interface type or, for 40% of the files, of the concrete type written) and DecodeRowFields; count, order, documented geometry images with bitwise coordinates, ints, floats to 10 decimals and strings must equal the records written, Error() must be nil.",
          "go-shp's trimming of leading blanks is a recorded known finding (key string:edge-blanks-trimmed); nil geometries are outside the property and not generated.", "§4 C16"),
  "C17": ("runtime monitor: independent OGC WKT recursive-descent parser as oracle, bitwise comparison",
          "The text produced for every generated geometry of the five supported types must be accepted by an independently written strict OGC tagged-text parser and parse to a bitwise-identical geometry; MultiPoint, GeometryCollection and *Bounds must be rejected with an error.",
